@@ -85,7 +85,8 @@ func main() {
 	if prop == "C06" {
 		rn.eintrPhase()
 		rn.stressPhase()
-		rn.scenarioPhase([]string{"inherit-write", "inherit-read", "quietread-write", "quietread-create", "handover-edit", "handover-mutex"})
+		rn.scenarioPhase([]string{"inherit-write", "inherit-read", "quietread-write", "quietread-create", "handover-edit", "handover-mutex",
+			"exclhold-read", "exclhold-edit", "exclhold-mutex", "exclhold-open", "exclhold-read+append", "exclhold-edit+sync"})
 	} else {
 		if rn.st {
 			rn.faultPhase()
@@ -219,6 +220,15 @@ func (rn *runner) scenario(name string) scenarioResult {
 		return scenarioQuietRead(rn.self, rn.f.Work, parts[1])
 	case "handover":
 		return scenarioHandover(rn.self, rn.f.Work, parts[1])
+	case "exclhold":
+		extra := 0
+		w := parts[1]
+		if strings.HasSuffix(w, "+append") {
+			extra, w = os.O_APPEND, strings.TrimSuffix(w, "+append")
+		} else if strings.HasSuffix(w, "+sync") {
+			extra, w = os.O_SYNC, strings.TrimSuffix(w, "+sync")
+		}
+		return scenarioExclHold(rn.self, rn.f.Work, w, extra)
 	}
 	return scenarioResult{name: name, setup: "unknown scenario"}
 }
